@@ -17,6 +17,10 @@ def main():
     except ImportError:
         HOOKS = {}
     code = driver.check_property(a.property, a.tier, seed, bounded_hooks=HOOKS.get(a.property), only=a.only, write_baseline=a.write_baseline)
+    if a.tier == "thorough" and code == 0 and not a.only and not os.environ.get("PYVC_REPO"):
+        # self-test of the machinery (informational, never changes the exit code): every change kept under
+        # /verif/seeded/ for this property is applied to a scratch copy of /repo and the same check is run on it
+        driver.seeded_self_test(a.property)
     sys.exit(code)
 
 
